@@ -26,7 +26,7 @@ ASSUMPTIONS = [
     "objects: only legal edits are made (add_edge of a pair the type allows, remove_edge of a present edge, update_vertex_number above the current count); 'the graph as it is at writing time' is the harness-side model; for random constructions (gnp, glrd, ... , pyramids and trees, whose structure is C15's subject) and after split_random_edges / add_random_missing_edges the model is read from has_edge on every pair of vertices",
     "streams: a stream given to readGraph / writeGraph / from_file is an instance of io.TextIOBase (the tree refuses other objects with ValueError) and the format is always named (a stream made with os.fdopen has a number as name); a stream that cannot seek implements the documented methods only (read, readline and what io.IOBase derives from them; write), read(size) and readline(size) may return fewer characters than asked, never more; streams on pipes are opened with universal newlines as sys.stdin is; named pipes and os.pipe() are those of the host (Linux)",
     "line-end look-alikes (route 'linesep'): U+2028, U+2029, \\x0b, \\x0c, \\x1c-\\x1e, \\x85 and a bare \\r are ordinary characters of the line they are in; a line of a graph file ends at \\n (or \\r\\n) only, and at a bare \\r exactly when the stream translates it (open() with the default universal newlines: file names, handles opened by default, newline=''; not io.StringIO, not newline='\\n'); they are generated inside comment lines and graph names only, followed by a non-empty text. A file written by the harness with such a comment may be rejected (ValueError) but not read as another graph. A graph NAME with a bare \\r written by the tree and read back through a stream with universal newlines is left open (the tail of the name is a line of its own for every reader of such a stream: the unchanged tree rejects its own file with ValueError in that case; another graph is never accepted); names are otherwise single-line texts",
-    "second generation (nx_docs, kind 'secondgen'): a '#' comment line of a GML document written by the harness has no double quote (networkx's GML tokenizer takes any line with exactly one double quote, comment or not, for the start of a string that goes on in the next lines: the rest of the document is swallowed, 'input contains no graph', and an empty line inside such a string raises IndexError in networkx, which readGraph does not turn into ValueError - reported, kept out of the domain of the second-generation cases; among the mutated GML documents exactly this shape with exactly this exception is marked 'open-finding:gml-IndexError-empty-line-in-open-string' instead of being reported as a violation); a '//' comment line of a DOT document does not end with a backslash (pyparsing's cppStyleComment continues it on the next line); a first file in a layout that the reference reader calls gray may be refused with ValueError",
+    "second generation (nx_docs, kind 'secondgen'): a '#' comment line of a GML document written by the harness has no double quote (networkx's GML tokenizer takes any line with exactly one double quote, comment or not, for the start of a string that goes on in the next lines: the rest of the document is swallowed, 'input contains no graph', and an empty line inside such a string used to escape from readGraph as IndexError - repaired by e527042, the mutated GML documents demand ValueError there); a '//' comment line of a DOT document does not end with a backslash (pyparsing's cppStyleComment continues it on the next line); a first file in a layout that the reference reader calls gray may be refused with ValueError",
     "objects: a DOT text written by the tree is read back by the tree (pydot, ~50 ms) in a quarter of the quick cases and in every thorough enumerated case; otherwise by a harness-side reader of the plain dialect pydot writes (one statement per line, decimal identifiers, numbering by increasing identifier), falling back to the tree reader when the text is not in that dialect",
 ]
 
@@ -1385,12 +1385,6 @@ def run_nxdoc(case):
         except ValueError as e:
             kind, err = 'ValueError', e
         except Exception as e:      # noqa
-            if fmt == 'gml' and isinstance(e, IndexError) and not exact and _gml_open_string_trap(mutated):
-                # OPEN FINDING (reported, /repo not changed): an empty line after a line with one double quote makes
-                # networkx's GML tokenizer raise IndexError and readGraph lets it through instead of ValueError.
-                # Marked, so that the rest of the domain stays checked: only this exception on exactly this shape.
-                return Outcome(labels=['{}/{}'.format(gtype, fmt), 'mutated', 'open-finding:gml-IndexError-empty-line-in-open-string'],
-                               rejected=True, nontrivial=False, known='nx-exc:IndexError:gml-open-string')
             raise Violation("{} read as {}: {}: {} instead of a graph or ValueError, for the document {!r}".format(
                 fmt, gtype, type(e).__name__, e, mutated), signature='nx-exc:' + type(e).__name__)
     labels = ['{}/{}'.format(gtype, fmt), 'sut:' + kind, 'exact' if exact else 'mutated']
